@@ -119,7 +119,7 @@ def ensure_exe(harness, variant, extra_sources=(), extra_cflags=(), extra_ld=())
     hflags = list(cflags)
     if variant == "thr":
         hflags = ["-O1", "-g"]
-    cmd = [cc] + hflags + list(extra_cflags) + ["-D_GNU_SOURCE", "-Wall", "-Wno-unused-function",
+    cmd = [cc] + hflags + list(extra_cflags) + ["-D_GNU_SOURCE", "-Wall", "-Wno-unused-function", "-Werror=implicit-function-declaration",
                                                  "-I", cfg, "-I", REPO, "-I", os.path.join(VERIF, "mc"),
                                                  "-I", os.path.join(VERIF, "harness")] + srcs + objs + \
         ["-o", exe + ".tmp"] + ldflags + list(extra_ld) + ["-lm"]
